@@ -3,6 +3,7 @@ package server
 import (
 	mrand "math/rand"
 	"sync"
+	"sync/atomic"
 	"time"
 
 	"github.com/google/uuid"
@@ -19,6 +20,13 @@ type session struct {
 	remoteCertificate []byte
 
 	PublishRequests chan PubReq
+
+	// activated is set once ActivateSession succeeded.
+	activated atomic.Bool
+}
+
+func (s *session) isActivated() bool {
+	return s.activated.Load()
 }
 
 type sessionConfig struct {
